@@ -9,7 +9,8 @@
 (* library included unless disabled; lzma preset 6.                        *)
 (* Three routes produce  artefact = Asm(sources, Effective)  and           *)
 (* run = Exec(artefact, input):  OneStep (fj ... -o), TwoStep (fj --asm -o *)
-(* then fj --run), Api (flipjump.assemble / run).  RoutesAgree: the        *)
+(* then fj --run), Api (flipjump.assemble / run; and the one-call           *)
+(* flipjump.assemble_and_run).  RoutesAgree: the                          *)
 (* artefacts are byte-identical and the runs equal wherever the routes can *)
 (* express the same effective options (the API has no lzma preset / flags  *)
 (* parameters and takes the warning mode as an argument).                  *)
@@ -43,5 +44,8 @@ Clauses(rec) ==
          one_two_bytes  |-> rec.one.ok = rec.two.ok /\ (rec.one.ok => rec.one.digest = rec.two.digest),
          one_two_run    |-> rec.one.ok => (rec.one.out = rec.two.out /\ rec.one.term = rec.two.term),
          api_bytes      |-> (rec.api.ran /\ ApiComparable(rec.opts)) => (rec.api.ok = rec.one.ok /\ (rec.one.ok => rec.api.digest = rec.one.digest)),
-         api_run        |-> (rec.api.ran /\ rec.api.ok /\ rec.one.ok) => (rec.api.out = rec.one.out /\ rec.api.term = rec.one.term) ]
+         api_run        |-> (rec.api.ran /\ rec.api.ok /\ rec.one.ok) => (rec.api.out = rec.one.out /\ rec.api.term = rec.one.term),
+         \* the convenience route flipjump.assemble_and_run (assembles into a temporary file, then runs) behaves like assemble + run
+         quick_run      |-> (rec.api.ran /\ "qs_ran" \in DOMAIN rec.api /\ rec.api.qs_ran) =>
+                                (rec.api.qs_ok = rec.api.ok /\ (rec.api.ok => (rec.api.qs_out = rec.api.out /\ rec.api.qs_term = rec.api.term))) ]
 =============================================================================
